@@ -26,4 +26,6 @@ MUTANTS = [
     {"id": "c07-n-bnmap-loopvar", "expect": "silent", "edits": [(G, "                        for bn in buildnums:\n                            bn_map[bn.as_tuple()] = new_rbuild", "                        for num in buildnums:\n                            bn_map[num.as_tuple()] = new_rbuild")]},
     {"id": "c07-trivial-bumps-dropped", "expect": "fire", "edits": [(G, "            new_rbuild = RBuild(\n                new_rcommit, parent_rbuilds, rcommits_in_build, components_bumps)", "            components_bumps = {r: b for r, b in components_bumps.items() if not b.is_trivial()}\n            new_rbuild = RBuild(\n                new_rcommit, parent_rbuilds, rcommits_in_build, components_bumps)")]},
     {"id": "c07-bump-entry-only-when-moved", "expect": "fire", "edits": [(G, "            components_bumps[repo_id] = ComponentBump(\n                from_builnums, cur_component_bn,\n                from_rbuilds, cur_component_rbuild)", "            if from_builnums != [cur_component_bn]:\n                components_bumps[repo_id] = ComponentBump(\n                    from_builnums, cur_component_bn,\n                    from_rbuilds, cur_component_rbuild)")]},
+    # R07h
+    {"id": "c07-bump-walk-ends-at-shipped-build", "expect": "fire", "edits": [(G, "            if cur_rbuild.iid in self.from_rbuilds:\n                # do not go deeper\n                dfs_sp[-1] = cur_sp - 1\n                continue\n", "            if cur_rbuild.iid in self.from_rbuilds:\n                break\n")]},
 ]
